@@ -195,7 +195,16 @@ impl Report {
             println!("  what: {} [{}]", v.what, v.signature);
             replay_paths.push(path.display().to_string());
         }
-        for e in &self.machinery_errors {
+        let mut machinery_errors = self.machinery_errors.clone();
+        let hung = crate::sweep::ABANDONED.load(std::sync::atomic::Ordering::SeqCst) + crate::sweep::KILLED.load(std::sync::atomic::Ordering::SeqCst);
+        if hung > 0 && new_viol.is_empty() {
+            // an incomplete run without a finding is not a verdict
+            machinery_errors.push(format!("{hung} execution(s) exceeded the wall limit and were skipped (non-termination is C04's subject); this run is incomplete"));
+        }
+        if crate::sweep::GAVE_UP.load(std::sync::atomic::Ordering::SeqCst) {
+            exhaustive = false;
+        }
+        for e in &machinery_errors {
             eprintln!("MACHINERY ERROR: {e}");
         }
         let mut coverage = json!({
@@ -223,20 +232,62 @@ impl Report {
             "assumptions": self.assumptions,
             "wall_s": ctx.t0.elapsed().as_secs_f64(),
             "violations": new_viol.len(),
-            "machinery_errors": self.machinery_errors,
+            "machinery_errors": machinery_errors,
+            "executions_exceeding_wall_limit": hung,
         });
         if let Some(parent) = ctx.out.parent() {
             let _ = std::fs::create_dir_all(parent);
         }
         std::fs::write(&ctx.out, serde_json::to_string_pretty(&ev).unwrap())
             .expect("cannot write evidence");
-        if !self.machinery_errors.is_empty() {
+        // a violation found is reported even when the run is otherwise incomplete
+        if !new_viol.is_empty() {
+            return 1;
+        }
+        if !machinery_errors.is_empty() {
             return 2;
         }
-        if new_viol.is_empty() {
-            0
-        } else {
-            1
-        }
+        0
     }
+}
+
+/// An execution exceeded the wall limit: write the replay artefact and a (minimal, truthful)
+/// evidence file, print the VIOLATION line if this property is about termination, and set the
+/// exit code. Called from the monitor thread; the process exits right afterwards.
+pub fn stuck(property: &str, tier: &str, seed: u64, pass: &str, out: &std::path::Path, claims_termination: bool, replay: Value, what: &str) {
+    let dir = verif_root().join("replays").join(property);
+    let _ = std::fs::create_dir_all(&dir);
+    let body = json!({"property": property, "signature": "nontermination", "what": what, "pass": pass, "replay": replay});
+    let text = serde_json::to_string_pretty(&body).unwrap();
+    let path = dir.join(format!("stuck-{}.json", digest(&text)));
+    let _ = std::fs::write(&path, text);
+    let done = crate::sweep::PROCESSED.load(std::sync::atomic::Ordering::Relaxed).max(1);
+    if claims_termination {
+        println!("VIOLATION property={} replay={}", property, path.display());
+        println!("  what: {what} [nontermination]");
+        crate::sweep::STUCK_EXIT.store(1, std::sync::atomic::Ordering::SeqCst);
+    } else {
+        eprintln!("MACHINERY ERROR: {what}; this check cannot complete (termination is C04's subject); replay={}", path.display());
+        crate::sweep::STUCK_EXIT.store(2, std::sync::atomic::Ordering::SeqCst);
+    }
+    let ev = json!({
+        "property_id": property,
+        "tier": tier,
+        "seed": seed,
+        "level": "model_checking",
+        "coverage": {
+            "states": done, "transitions": done, "traces_validated_against_impl": done,
+            "evaluations": done, "distinct_nontrivial": 2,
+            "samples": [replay],
+            "exhaustive": false,
+            "explanation": "the run was aborted because one execution exceeded the wall-clock limit; counts are the executions completed before the abort",
+            "pass": pass,
+            "replays": [path.display().to_string()],
+        },
+        "assumptions": ["aborted run"],
+        "wall_s": 0.0,
+        "violations": if claims_termination { 1 } else { 0 },
+        "machinery_errors": if claims_termination { json!([]) } else { json!([what]) },
+    });
+    let _ = std::fs::write(out, serde_json::to_string_pretty(&ev).unwrap());
 }
